@@ -788,6 +788,7 @@ func (s *SwitchFeatures) UnmarshalBinary(data []byte) error {
 		p := NewPhyPort()
 		err = p.UnmarshalBinary(data[next:])
 		next += int(p.Len())
+		s.Ports = append(s.Ports, *p)
 	}
 	return err
 }
